@@ -25,8 +25,11 @@ GEOMS = {
     "line": '<line x1="18" y1="25" x2="80" y2="70"{a}/>',
     # basic shapes with sharp corners (they are rewritten to paths before stroking: every stroke property must come along)
     "spikepoly": '<polygon points="30,82 50,17 60,82"{a}/>',
+    # a long self-crossing polyline (130 segments): the kind of outline on which Skia's simplify() of the stroke may give up
+    "scribble": '<polyline points="' + " ".join(f"{50 + 0.3 * i * __import__('math').cos(1.3 * i):.3f},{50 + 0.3 * i * __import__('math').sin(1.3 * i):.3f}" for i in range(131)) + '"{a}/>',
     "spikeline": '<polyline points="30,82 50,17 60,82"{a}/>',
 }
+GEOMS_GENERIC = [g for g in GEOMS if g != "scribble"]
 DASHES = [("none", 0), ("10", 0), ("10", 7), ("10 5", 0), ("10 5", -3), ("10 5 2", 0), ("10 5 2", 7), ("10,5,2", -3), ("0 12", 0), ("0 12", 5), ("6 0 0 10", 0), ("6 0 4 10", 3)]
 ZERO_DASHES = [("0 12", 0), ("6 0 0 10", 0), ("6 0 4 10", 3)]
 # the same numbers in the other spellings the number grammar allows (exponents, leading '+' / '.', mixed separators)
@@ -89,7 +92,7 @@ def all_cases(tier):
     if tier == "quick":
         widths, mls = [10], [4]
         dashes = [("none", 0), ("10 5 2", 7), ("10", -3)]
-        for geom, cap, join, (dash, off), tf, where, fill, tr in itertools.product(GEOMS, ("butt", "round", "square"), ("miter", "round", "bevel"), dashes, TRANSFORMS, WHERE, ("none", "orange"), (False, True)):
+        for geom, cap, join, (dash, off), tf, where, fill, tr in itertools.product(GEOMS_GENERIC, ("butt", "round", "square"), ("miter", "round", "bevel"), dashes, TRANSFORMS, WHERE, ("none", "orange"), (False, True)):
             if where in ("style", "root") and (tf is not None or tr):
                 continue
             if tr and fill == "none":
@@ -102,10 +105,10 @@ def all_cases(tier):
             if geom in ("spikepoly", "spikeline", "rect"):
                 yield (geom, 10, "butt", join, ml, "none", 0, None, "group", "orange", False)
                 yield (geom, 4, "square", join, ml, "none", 0, None, "style", "none", False)
-        for geom in GEOMS:
+        for geom in GEOMS_GENERIC:
             yield (geom, 4, "round", "round", 4, "10 5", 0, None, "attr", "orange", False)
         # stroke-width 0: nothing is stroked (SVG 11.4: "a zero value causes no stroke to be painted"), whatever the other properties say
-        for geom, cap, join, (dash, off), where, fill in itertools.product(GEOMS, ("butt", "round", "square"), ("miter", "round"), (("none", 0), ("10 5", 0)), WHERE, ("none", "orange")):
+        for geom, cap, join, (dash, off), where, fill in itertools.product(GEOMS_GENERIC, ("butt", "round", "square"), ("miter", "round"), (("none", 0), ("10 5", 0)), WHERE, ("none", "orange")):
             if cap != "butt" and where != "attr":
                 continue
             yield (geom, 0, cap, join, 4, dash, off, None, where, fill, False)
@@ -113,16 +116,18 @@ def all_cases(tier):
             yield (geom, 10 if cap == "butt" else 4, cap, "round", 4, dash, off, None, where, "none", False)
         for geom, (w, inh_w, inh_ml), cap, dash in itertools.product(("polyline", "spike", "rect"), ((10, "1", "40"), (4, "40", "4.0"), (10, "100", "0.4"), (10, "10.0", "4")), ("butt", "round"), (("none", 0), ("10 5", 0))):
             yield (geom, w, cap, "miter", 4, dash[0], dash[1], None, f"override:{inh_w}:{inh_ml}", "none", False)
+        for cap, join, where in itertools.product(("butt", "round", "square"), ("miter", "round", "bevel"), ("attr", "group")):
+            yield ("scribble", 2, cap, join, 4, "none", 0, None, where, "none", False)
         # dash arrays with zero entries: a zero dash is a dot under round / square caps and nothing under butt caps; a zero gap joins its neighbours
         for geom, cap, (dash, off), fill in itertools.product(("line", "polyline", "rect", "circle"), ("butt", "round", "square"), ZERO_DASHES, ("none", "orange")):
             if geom in GEOMS:
                 yield (geom, 4, cap, "round", 4, dash, off, None, "attr", fill, False)
     else:
-        for geom, cap, join, (dash, off), tf, where, fill, tr in itertools.product(GEOMS, ("butt", "round", "square"), ("miter", "round", "bevel"), (("none", 0), ("10 5", 0), ("0 12", 0)), TRANSFORMS, WHERE, ("none", "orange"), (False, True)):
+        for geom, cap, join, (dash, off), tf, where, fill, tr in itertools.product(GEOMS_GENERIC, ("butt", "round", "square"), ("miter", "round", "bevel"), (("none", 0), ("10 5", 0), ("0 12", 0)), TRANSFORMS, WHERE, ("none", "orange"), (False, True)):
             if tr and fill == "none":
                 continue
             yield (geom, 0, cap, join, 4, dash, off, tf, where, fill, tr)
-        for geom, w, cap, join, ml, (dash, off), tf, where, fill, tr in itertools.product(GEOMS, (4, 10), ("butt", "round", "square"), ("miter", "round", "bevel"), (1, 4, 10), DASHES, TRANSFORMS, WHERE, ("none", "orange"), (False, True)):
+        for geom, w, cap, join, ml, (dash, off), tf, where, fill, tr in itertools.product(GEOMS_GENERIC, (4, 10), ("butt", "round", "square"), ("miter", "round", "bevel"), (1, 4, 10), DASHES, TRANSFORMS, WHERE, ("none", "orange"), (False, True)):
             if tr and fill == "none":
                 continue
             if ml != 4 and (join != "miter" or where != "attr" or tr):
